@@ -107,3 +107,56 @@ def replay_file(path):
         return 1 if bad else 0
     print(" no native input: the obligation is a frame/contract clause; verifier output is in the file")
     return 1
+
+
+def num(v):
+    """cbmc value text -> python int ('12u', '-3', '0x10', 'TRUE', "'a'")"""
+    v = str(v).strip()
+    if v in ("TRUE", "true"):
+        return 1
+    if v in ("FALSE", "false"):
+        return 0
+    m = re.match(r"^(-?\d+)[uUlL]*$", v)
+    if m:
+        return int(m.group(1))
+    m = re.match(r"^(0x[0-9a-fA-F]+)[uUlL]*$", v)
+    if m:
+        return int(m.group(1), 16)
+    m = re.match(r"^/\*enum\*/(\w+)$", v)
+    raise ValueError("unparsable cbmc value " + v)
+
+
+def harness_replay(fixed=None, render=None):
+    """Replay function for harness-style lemmas: compiles the lemma's own harness natively
+    (-DNATIVE_REPLAY), feeds the counterexample's ghosts, and reports whether a CHECK is
+    violated (or the real code crashes) on the real build."""
+    def fn(l, failure):
+        ghosts = {}
+        for k, v in (failure.get("ghosts") or {}).items():
+            try:
+                ghosts[k] = num(v)
+            except ValueError:
+                pass
+        for k, v in (fixed or {}).items():
+            ghosts[k] = v(l) if callable(v) else v
+        extra = render(l, ghosts) if render else {}
+        if extra is None:
+            return {"reproduced": False, "note": "counterexample not renderable as real input"}
+        defs = ["-D%s=%s" % (k, v) for k, v in l.defs.items()] + ["-DHARNESS_FILE=\"%s\"" % l.src, "-DENTRY=" + l.entry]
+        tag = hashlib.sha1((l.name + str(sorted(l.defs.items()))).encode()).hexdigest()[:10]
+        ok, path, log = build(os.path.join(vf.VERIF, "replay", "native_main.c"), "h_" + tag, defs)
+        if not ok:
+            return {"reproduced": False, "error": "native build failed: " + log[-800:]}
+        args = ["%s=%s" % (k, v) for k, v in ghosts.items()] + ["%s=%s" % (k, v) for k, v in extra.items()]
+        cmd = [path] + args
+        try:
+            p = subprocess.run(cmd, stdout=subprocess.PIPE, stderr=subprocess.STDOUT, timeout=20)
+            out = p.stdout.decode("latin-1"); rc = p.returncode
+        except subprocess.TimeoutExpired:
+            out, rc = "TIMEOUT (hang)", -14
+        bad = ("VIOLATED" in out) or rc < 0
+        if rc == 77:
+            bad = False
+        return {"reproduced": bad, "cmd": " ".join("'%s'" % c for c in cmd), "rc": rc, "output": out[-3000:],
+                "fail_regex": "VIOLATED|SIGNAL", "ghosts": ghosts, "text": extra}
+    return fn
